@@ -1,5 +1,6 @@
 import Hertz.Proofs.Tagexpr
 import Hertz.Proofs.TagexprEval
+import Hertz.Proofs.TagexprNoPanic
 import Hertz.Model.Tagexpr
 import Hertz.Gen.Prio
 /-!
@@ -208,16 +209,156 @@ example (env : Env) : NoPanic (evalTree env
 theorem eval_panics_on_missing_operand (env : Env) :
     evalTree env (.node .add (.leaf (constNode "n" (.num 1))) .nil) = .error (.fault (.panic "nil.Run")) := rfl
 
+/-! ## the whole expression language: groups, `len(…)`, `in(…)`, `regexp(…)`
+
+The statements above are about one operator sequence over atoms.  The parser is mutually recursive
+(`parseExprNode` / `readOperand` / `parseArgs`: an operand may be a parenthesised group or a function
+call whose arguments are expressions again).  The following theorems are proved by induction over
+its fuel, for every input string.
+
+`Built full o` (Proofs/TagexprNoPanic.lean) is the inductive description of the operand nodes of the
+language: a literal, a field reference, `groupNode (specParse first ts) …`,
+`funcNode name [groupNode (specParse firstᵢ tsᵢ) none none, …] …` or
+`regexpNode re neg (groupNode (specParse first ts) none none)`, where every `(first, ts)` is a token
+sequence the parser can read (`SeqOK`: empty, `a op x …`, or the same with one trailing operator;
+`full = true` allows the middle form only) and every operand in it is `Built full` again.
+`Compiled full t` says the same of a tree: `t = specParse first ts` for such a sequence. -/
+
+/-- `parse_eq_spec` without the restriction to atoms, one level: whatever `parseExprNode` returns for
+an input string (top level, inside a group, as a function argument), `sortPriority` neither panics
+nor runs out of passes on it and yields the precedence parser's tree of the token sequence that was
+read from left to right. -/
+theorem parse_eq_spec_expr (n : Nat) (s r : List Char) (t : Node) (h : parseExprNode n s none = .ok (t, r)) :
+    liftSort t = .ok (specParse (flat t).1 (flat t).2) :=
+  liftSort_parsed_flat (parseExprNode_parsed n s h)
+
+example : (match parseExprNode 40 ['(', '1', '+', '$', ')', '*', '2', '-', '3', ' '] none with
+    | .ok (.node .sub (.node .mul (.leaf _) (.leaf _)) (.leaf _), []) => true | _ => false) = true := by decide
+
+/-- … and at every depth: the tree `parseExpr` returns is the precedence tree of a token sequence
+whose operands are literals, field references, or groups / `len` / `in` / `regexp` calls holding
+precedence trees of the same kind.  ("The tree built is the precedence tree", for the whole language
+the parser accepts.) -/
+theorem parse_builds_precedence_trees (expr : List Char) (t : Node) (h : parseExpr expr = .ok t) :
+    Compiled false t :=
+  parseExpr_compiled h
+
+/-- what `Compiled` gives at the top: the documented precedence and associativity, over exactly the
+token sequence -/
+theorem compiled_is_precedence_tree {full : Bool} (t : Node) (h : Compiled full t) :
+    IsPrecTree t ∧ ∃ first ts, flat t = (first, ts) ∧ SeqOK full first ts := by
+  obtain ⟨first, ts, rfl, hs, _⟩ := h
+  exact ⟨specParse_prec first ts, first, ts, specParse_tokens first ts, hs⟩
+
+/-- `(1+$)*len('ab')>2 && in($,1,2) || regexp('^a')` compiles (non-vacuity of the two theorems above) -/
+example : (match parseExpr ['(', '1', '+', '$', ')', '*', 'l', 'e', 'n', '(', '\'', 'a', 'b', '\'', ')', '>', '2',
+      ' ', '&', '&', ' ', 'i', 'n', '(', '$', ',', '1', ',', '2', ')', ' ', '|', '|', ' ',
+      'r', 'e', 'g', 'e', 'x', 'p', '(', '\'', '^', 'a', '\'', ')'] with
+    | .ok (.node .or (.node .and (.node .gt (.node .mul _ _) _) _) _) => true | _ => false) = true := by decide
+
+/-- The parser never panics, on any input: `sortPriority` is only ever applied to trees in which
+`leftOperandToParent` finds the right operand it dereferences. -/
+theorem parser_never_panics (expr : List Char) (f : Fault) : parseExpr expr ≠ .error (.fault f) :=
+  parseExpr_no_fault expr f
+
+/-- the `Run` method of every operand node of the language, for every environment: a panic can only
+be the method call on a missing operand; with `full = true` (no operand missing anywhere) there is none -/
+theorem built_operand_no_panic (env : Env) (o : Operand) :
+    (Built false o → ∀ site, o.run env = .error (.fault (.panic site)) → site = "nil.Run") ∧
+    (Built true o → NoPanic (o.run env)) :=
+  ⟨fun h site hs => (built_run_safe (P := (· = "nil.Run")) (fun _ => rfl) env h).h site hs,
+   fun h => noPanic_of_safe (built_run_safe (full := true) (fun h => by cases h) env h)⟩
+
+example : Built true (groupNode (specParse (some (constNode "n" (.num 1))) (toks [(.add, selectorNode "" none none)])) none none) :=
+  .group _ _ _ _ (.chain _ _) (by
+    intro o ho
+    simp only [seqOperands, toks, List.map_cons, List.map_nil, List.mem_cons, Option.some.injEq,
+      List.not_mem_nil, or_false] at ho
+    rcases ho with rfl | rfl
+    · exact .const _ _
+    · exact .selector _ _ _)
+
+/-- **validate_no_panic.**  For every expression string and every environment (whatever the field
+values are), if `Validator.Validate` panics, the site is the method call on a missing operand
+(`Run` on a nil `ExprNode`): neither the parser, nor `sortPriority`, nor an operator, nor `len`, `in`,
+`regexp` panics. -/
+theorem validate_no_panic (env : Env) (expr : List Char) (site : String)
+    (h : (validate expr env).1 = .panic site) : site = "nil.Run" :=
+  validate_panic_site expr env site h
+
+/-- the hypothesis is satisfiable: `(1+ )*2` does panic there -/
+example : (match (validate ['(', '1', '+', ' ', ')', '*', '2'] { cur := "A", fields := [] }).1 with
+    | .panic "nil.Run" => true | _ => false) = true := by decide
+
+/-- … and no panic at all when no operand is missing: no trailing operator, no empty group, no empty
+argument.  The hypothesis is stated on the rendering of the compiled tree (the string the
+correspondence check compares with the tree the real `parseExpr` built, where a missing operand is
+printed `~` at every depth). -/
+theorem validate_no_panic_complete (env : Env) (expr : List Char) (t : Node) (h : parseExpr expr = .ok t)
+    (hc : ¬ ShowsMissing (shapeOf t)) (site : String) : (validate expr env).1 ≠ .panic site :=
+  validate_no_panic_of_compiled expr env t h (compiled_complete (parseExpr_compiled h) hc) site
+
+/-- non-vacuity: `(1+$)*len('ab')>2 && in($,1,2)` has no missing operand … -/
+example : (match parseExpr ['(', '1', '+', '$', ')', '*', 'l', 'e', 'n', '(', '\'', 'a', 'b', '\'', ')', '>', '2',
+      ' ', '&', '&', ' ', 'i', 'n', '(', '$', ',', '1', ',', '2', ')'] with
+    | .ok t => decide (¬ ShowsMissing (shapeOf t)) | _ => false) = true := by decide
+
+/-- … and the excluded inputs are the three kinds named: `(1+ )*2`, `()`, `len(1, )` -/
+example : [['(', '1', '+', ' ', ')', '*', '2'], ['(', ')'], ['l', 'e', 'n', '(', '1', ',', ' ', ')']].all
+    (fun e => match parseExpr e with | .ok t => decide (ShowsMissing (shapeOf t)) | _ => false) = true := by decide
+
+/-- the same with the hypothesis in structural form -/
+theorem validate_no_panic_compiled (env : Env) (expr : List Char) (t : Node) (h : parseExpr expr = .ok t)
+    (hc : Compiled true t) (site : String) : (validate expr env).1 ≠ .panic site :=
+  validate_no_panic_of_compiled expr env t h hc site
+
+/-- a rendering without `~` is sufficient for the structural form (used above) -/
+theorem complete_of_rendering (t : Node) (h : Compiled false t) (hc : ¬ ShowsMissing (shapeOf t)) : Compiled true t :=
+  compiled_complete h hc
+
+/-- The fuel is an artefact of the model (Go recurses on the stack); it is never the reason for an
+answer: `4·|expr| + 8` steps are enough for the three mutually recursive functions on every input. -/
+theorem parser_fuel_suffices (expr : List Char) : parseExpr expr ≠ .error .fuel :=
+  parseExpr_fuel expr
+
+/-- So the model's parser has exactly three outcomes on any string: a compiled tree as described
+above, a syntax error (`parseExpr` returns an error), or a construct outside the modelled subset
+(named; the driver then has no opinion).  No panic, no exhausted fuel. -/
+theorem parser_outcomes (expr : List Char) :
+    (∃ t, parseExpr expr = .ok t ∧ Compiled false t) ∨ parseExpr expr = .error .syntax ∨
+    (∃ w, parseExpr expr = .error (.unsupported w)) := by
+  cases h : parseExpr expr with
+  | ok t => exact .inl ⟨t, rfl, parseExpr_compiled h⟩
+  | error e =>
+    match e, h with
+    | .syntax, _ => exact .inr (.inl rfl)
+    | .unsupported w, _ => exact .inr (.inr ⟨w, rfl⟩)
+    | .fuel, h => exact absurd h (parseExpr_fuel expr)
+    | .fault f, h => exact absurd h (parseExpr_no_fault expr f)
+
+/-- all three occur: `1 + 2`, `1 + )`, `$[0]` -/
+example : (match parseExpr ['1', ' ', '+', ' ', '2'], parseExpr ['1', ' ', '+', ' ', ')'], parseExpr ['$', '[', '0', ']'] with
+    | .ok _, .error .syntax, .error (.unsupported _) => true | _, _, _ => false) = true := by decide
+
 /-
-TODO-OPEN  validate_no_panic :
-  ∀ env expr site, (validate expr env).1 = .panic site → site = "nil.Run"
-  (and no panic at all when the expression has no trailing operator and no empty group/argument).
-Missing: an induction over the fuel of the mutually recursive parser (`parseExprNode`/`readOperand`/
-`parseArgs`) showing that every operand node it returns is one of the five constructors of
-`operand_nodes_no_panic` applied to trees it built itself; with that, `eval_no_panic`,
-`operand_nodes_no_panic` and `parse_eq_spec_trailing` (sorting never panics and keeps the operands)
-give the statement.  It is checked on every generated case by the correspondence run: the model
-panics exactly where the real code does.
+TODO-OPEN
+  Closed in this round: `validate_no_panic` (both halves: `validate_no_panic` for every expression,
+  `validate_no_panic_complete` / `validate_no_panic_compiled` when no operand is missing),
+  `parse_eq_spec` lifted to the whole language (`parse_eq_spec_expr`, `parse_builds_precedence_trees`,
+  `compiled_is_precedence_tree`), the parser never panics (`parser_never_panics`) and never runs out of
+  fuel (`parser_fuel_suffices`, `parser_outcomes`).
+  What remains open:
+  * `ShowsMissing` (hypothesis of `validate_no_panic_complete`) is stated on the rendering of the
+    compiled tree, i.e. on the parser's output, not on the input string: a purely lexical
+    characterisation of "no trailing operator, no empty group, no empty argument" that does not
+    mention the parser is not given (it would have to re-do the bracket/quote matching of
+    `readPairedSymbol`).
+  * The token sequence in `parse_eq_spec_expr` is the one `parseExprNode` itself read (`flat` of the
+    chain it returned); that the lexer's cut points are the documented ones (delimiter sets of the
+    operand regexps) is compared with the real code on every case, not specified independently.
+  * float64 arithmetic, `strconv`/`fmt` conversions and `regexp` stay compared, not proved (`Float` is
+    opaque to the kernel); constructs outside the modelled subset (`$[…]` sub-selectors, `#` range
+    keys, `sprintf`/`range`/`mblen`) answer `unsupported` and are not covered by any theorem here.
 -/
 
 end Hertz.Props.C20
